@@ -37,14 +37,25 @@ MODEL_FILES = ['SF/SelectVal.v', 'SF/SelectDt.v', 'Gen/Gen_util.v', 'Gen/Gen_typ
 TRANSLATED = ['cols_to_slice', 'slice_to_inclusive_slice', 'resolve_dtype']
 IMPORTS = ('Require Import SF.Prelude SF.PySlice SF.Dtype SF.Value SF.Blocks SF.Select SF.SelectVal SF.SelectDt SF.PyDyn '
            'Gen.Gen_util Gen.Gen_type_blocks.')
-RULE = ('frames: column dtype patterns x EVERY block layout (sfv.zoo) x 0..4 rows x axis kinds; keys: every int in [-(n+2), n+2], every slice '
-        'with start/stop in None,-(n+2)..n+2 and step in None,-(n+2)..n+2 without 0 (exhaustive for n<=4 in the thorough tier, sampled in quick), '
-        'integer lists/arrays (negative, repeated, out of range, empty), all Boolean masks of the axis length (+ wrong length), label keys '
-        '(label, list, inclusive slice, Boolean Series, Index, ILoc); a case is non-trivial when it selects a proper, non-empty part or must raise; '
-        'distinct = distinct (frame, layout, route, keys)')
-ASSUMPTIONS = ['NumPy: b[rk] / b[rk, slc] applies the row key to every column of the block alike and returns element / 1-D / 2-D as documented',
-               'FrozenAutoMap: label -> first position, KeyError when absent',
-               'generators keep float cells exact dyadic rationals; labels and keys of one axis have one Python type']
+RULE = ('API strata: column dtype patterns (int/float/bool/str/object/datetime mixes, 0..5 columns) x EVERY block layout (sfv.zoo) x 0..4 rows x axis kinds '
+        '(string labels, integer labels that are positions of OTHER rows, auto-integer, IndexDate, IndexYearMonth, 2-level IndexHierarchy) on either axis, through '
+        'frame.iloc / frame.loc / frame[] / frame.bloc and series.iloc / .loc / []. Positional keys: every int in [-(n+2), n+2], every Boolean mask of the axis '
+        'length, every slice with start/stop in None,-(n+2)..n+2 and step in None,-(n+2)..n+2 without 0 (ALL of them for the column axis of every layout of 4 '
+        'equal-dtype columns and for Series of length <= 4 in the thorough tier; sampled in quick), integer lists/arrays (negative aliases, repeats, out of range, '
+        'empty), np.int64 scalars, None. Label keys: label, list/array/Index of labels, inclusive label slices with step None/1/2/-1/-2 (all of them on 4 labels), '
+        'Boolean array, Boolean Series (shuffled, partial, with foreign labels), ILoc wrappers, date strings / date objects / datetime64 of the same and of coarser '
+        'units, period lists and period slices. Malformed stream: absent labels, out-of-range ints, wrong-length masks, step 0, repeated positions; at most one '
+        'axis per case must raise. Kernel strata: _indices_to_contiguous_pairs on every (block, column) sequence of length <= 3 (4 thorough) over 2 blocks x 3 '
+        'columns; _key_to_block_slices and _extract_array (repeated positions allowed) over every layout of <= 4 columns; slice_to_inclusive_slice on a grid; '
+        'NumPy datetime64 D->M->Y against the Gallina oracle. A case is non-trivial when it selects a proper non-empty part or must raise; distinct = distinct '
+        '(container, layout, route, keys). Each case inside a known-finding class (by construction of its INPUT) also gets a model-only twin so that impl!=M stays visible.')
+ASSUMPTIONS = ['NumPy: b[rk] / b[rk, slc] applies the row key to every column of the block alike and returns element / 1-D / 2-D as documented; an out-of-range '
+               'integer row index raises IndexError whatever the width',
+               'FrozenAutoMap: label -> first position, KeyError when absent; Index(labels) raises when labels repeat',
+               'np.datetime64 unit conversion D->M->Y is floor conversion on the proleptic Gregorian calendar (SF/SelectDt.v, swept each run)',
+               'generators keep float cells exact dyadic rationals, one Python type per axis (labels and keys), no mixed datetime units in one row, ints below 2**53',
+               'when both keys must raise, which error comes first is not modelled (never generated)']
+TRUSTED = ['tools/sfv/props/c04.py generate(): fail-closed ast extractor of the Frame._extract decision tree (raises when the source leaves the expected shape)']
 EXHAUSTIVE = {'quick': False, 'thorough': False}
 
 
